@@ -1427,7 +1427,10 @@ impl Div for CelValue {
                             return CelValue::from_err(CelError::DivideByZero);
                         }
 
-                        return CelValue::from(val1 / val2);
+                        return match val1.checked_div(val2) {
+                            Some(res) => CelValue::from(res),
+                            None => CelValue::from_err(CelError::value("Integer overflow in '/'")),
+                        };
                     }
                 }
                 CelValue::UInt(val1) => {
@@ -1472,11 +1475,22 @@ impl Rem for CelValue {
             match lhs {
                 CelValue::Int(val1) => {
                     if let CelValue::Int(val2) = rhs {
-                        return CelValue::from(val1 % val2);
+                        if val2 == 0 {
+                            return CelValue::from_err(CelError::DivideByZero);
+                        }
+
+                        return match val1.checked_rem(val2) {
+                            Some(res) => CelValue::from(res),
+                            None => CelValue::from_err(CelError::value("Integer overflow in '%'")),
+                        };
                     }
                 }
                 CelValue::UInt(val1) => {
                     if let CelValue::UInt(val2) = rhs {
+                        if val2 == 0 {
+                            return CelValue::from_err(CelError::DivideByZero);
+                        }
+
                         return CelValue::from(val1 % val2);
                     }
                 }
@@ -1503,7 +1517,10 @@ impl Neg for CelValue {
 
         match self {
             CelValue::Int(val1) => {
-                return CelValue::from(-val1);
+                return match val1.checked_neg() {
+                    Some(res) => CelValue::from(res),
+                    None => CelValue::from_err(CelError::value("Integer overflow in unary '-'")),
+                };
             }
             CelValue::Float(val1) => {
                 return CelValue::from(-val1);
